@@ -282,6 +282,23 @@ func (p *Prog) Exec(line string) string {
 		})
 	case "marshaltext":
 		return p.Op(line, nil, func() string { b, _ := v(1).MarshalText(); return hex.EncodeToString(b) })
+	case "marshalhold": // marshalhold x y: the slice MarshalText returned must still hold x's text after later conversions
+		return p.Op(line, nil, func() string {
+			b, _ := v(1).MarshalText()
+			g, _ := v(1).GobEncode()
+			g0 := append([]byte(nil), g...)
+			for i := 0; i < 3; i++ {
+				_ = v(2).Text('g', -1)
+				_ = v(2).String()
+				_, _ = v(2).MarshalText()
+				_, _ = v(2).GobEncode()
+				_ = v(1).Text('e', 5)
+			}
+			if string(g) != string(g0) {
+				return "gob-encoding-changed"
+			}
+			return hex.EncodeToString(b)
+		})
 	case "marshaljson":
 		return p.Op(line, nil, func() string {
 			b, err := json.Marshal(v(1))
@@ -423,9 +440,22 @@ func (p *Prog) Exec(line string) string {
 			v(1).SetFloat(f)
 			return ""
 		})
-	case "float": // float x prec mode -> sign mantissa-int-words exp2 acc | inf
+	case "float": // float x prec mode [preset] -> sign mantissa-int-words exp2 acc | inf
 		return p.Op(line, nil, func() string {
 			f := new(big.Float).SetPrec(uint(atou64(t[2]))).SetMode(big.RoundingMode(atoi(t[3])))
+			if len(t) > 4 {
+				// the destination holds a value already: Float must overwrite it whatever it is
+				switch atoi(t[4]) {
+				case 1:
+					f.SetFloat64(2.75e30)
+				case 2:
+					f.SetInf(false)
+				case 3:
+					f.SetInf(true)
+				case 4:
+					f.SetFloat64(-3.25)
+				}
+			}
 			f = v(1).Float(f)
 			return bigFloatString(f)
 		})
